@@ -30,12 +30,12 @@ type LocalityJob struct {
 
 // LineAccess is one memory-accessing instruction on a source line.
 type LineAccess struct {
-	Line  int    `json:"line"`
-	Func  string `json:"func"`
-	Kind  string `json:"kind"`
-	Local bool   `json:"local"` // classified local in the merged derived context of its function
-	HasCtx bool  `json:"has_ctx"`
-	Why   string `json:"why,omitempty"`
+	Line   int    `json:"line"`
+	Func   string `json:"func"`
+	Kind   string `json:"kind"`
+	Local  bool   `json:"local"` // classified local in the merged derived context of its function
+	HasCtx bool   `json:"has_ctx"`
+	Why    string `json:"why,omitempty"`
 }
 
 // LocalityResult is the worker's answer.
